@@ -592,6 +592,44 @@ pub fn run(ctx: &Ctx) -> Outcome {
         Job::Template(i) => {
             perturb_templates(&tpl[*i], rep);
             rep.count("templates_completed");
+            if *i == 1 {
+                // lines longer than any frame can be (a valid header, 256..400 data pairs, a checksum): whatever else is
+                // wrong with them is classified as for a short line — one symbol substituted or inserted at positions
+                // spread over the whole line, with and without CRLF, odd and even lengths
+                for pairs in [256usize, 257, 300, 400] {
+                    for declared in [0x10u8, 0xFF, (pairs % 256) as u8] {
+                        let mut base = format!(":{:02X}000000", declared).into_bytes();
+                        for k in 0..pairs {
+                            base.extend_from_slice(format!("{:02X}", (k * 7 + 3) as u8).as_bytes());
+                        }
+                        base.extend_from_slice(b"00");
+                        for crlf in [false, true] {
+                            let mut line = base.clone();
+                            if crlf {
+                                line.extend_from_slice(b"\r\n");
+                            }
+                            check_string(&line, "overlong_lines", rep);
+                            let n = line.len();
+                            for p in [0usize, 1, 2, 8, 9, 10, 11, n / 3, n / 2, n / 2 + 1, n - 5, n - 4, n - 3, n - 2, n - 1] {
+                                for s in [b'G', b'g', b':', b' ', b'\r', b'\n', 0x00, 0xFF, b'+'] {
+                                    let mut l = line.clone();
+                                    l[p] = s;
+                                    check_string(&l, "overlong_lines", rep);
+                                    let mut l = line.clone();
+                                    l.insert(p, s);
+                                    check_string(&l, "overlong_lines", rep);
+                                    let mut l = line.clone();
+                                    l.remove(p);
+                                    let q = p.min(l.len() - 1);
+                                    l[q] = s;
+                                    check_string(&l, "overlong_lines", rep);
+                                }
+                            }
+                            rep.count("overlong_line_bases");
+                        }
+                    }
+                }
+            }
             if *i == 0 {
                 // lines whose byte sum is as large as it gets, with the right checksum, with every neighbouring wrong one,
                 // and with 00 / 01 / FF in its place
@@ -653,6 +691,7 @@ pub fn run(ctx: &Ctx) -> Outcome {
         floor("alphabet-13 enumeration complete (169 prefixes)", report.get("alpha13_prefixes_completed") == 169, report.get("alpha13_prefixes_completed")),
         floor("alphabet-5 enumeration complete (125 prefixes)", report.get("alpha5_prefixes_completed") == 125, report.get("alpha5_prefixes_completed")),
         floor("multi-byte (non-ASCII) sequences substituted and inserted at every position of every template", report.get("multibyte_substitutions") >= 4 * 2 * 26 * 20, report.get("multibyte_substitutions")),
+        floor("over-long lines (256..400 data pairs) with one defect at positions spread over the line", report.get("overlong_line_bases") == 24, report.get("overlong_line_bases")),
         floor("lines with the largest possible byte sums (right and wrong checksums)", report.get("largest_byte_sum_lines") == 24, report.get("largest_byte_sum_lines")),
         floor("every byte value at every position of every template", report.get("positions_swept_with_every_byte") > 150, report.get("positions_swept_with_every_byte")),
         floor("all templates perturbed", report.get("templates_completed") == tpl.len() as u64, report.get("templates_completed")),
